@@ -79,6 +79,25 @@ type S2 struct {
 	Y *S1
 }
 
+// Types reachable only through a field of a registered type: registering T3 beforehand must make all of
+// them usable concurrently (the statement: "a recomposer whose types were registered beforehand").
+type T3 struct {
+	M  map[string]T4
+	L  []T5
+	P  *T6
+	A  [2]T7
+	MP map[string]*T8
+	LL [][]T9
+}
+type T4 struct{ V int }
+type T5 struct{ V int }
+type T6 struct{ V int }
+type T7 struct{ V int }
+type T8 struct{ V int }
+type T9 struct{ V int }
+
+var bigList []any
+
 type op struct {
 	name string
 	// f runs the call on input index i; data is private to the calling goroutine
@@ -199,6 +218,32 @@ func ops() []op {
 		{"sen.Parse", func(w *worker, i int) string { v, err := sen.Parse([]byte(srcs[i])); return fmt.Sprint(showS(v), err) }},
 		{"sen.ParseReader", func(w *worker, i int) string { v, err := sen.ParseReader(strings.NewReader(srcs[i])); return fmt.Sprint(showS(v), err) }},
 		{"oj.JSON", func(w *worker, i int) string { return fmt.Sprint(len(oj.JSON(parsed(i)))) }},
+		{"oj.JSON(big,pooled)", func(w *worker, i int) string {
+			// longer than WriteLimit: a pooled writer that still holds somebody's io.Writer would flush into it
+			return oj.JSON(bigList[:300+i])
+		}},
+		{"sen.String(big,pooled)", func(w *worker, i int) string { return sen.String(bigList[:300+i]) }},
+		{"oj.Write(big,pooled)", func(w *worker, i int) string {
+			var buf bytes.Buffer
+			err := oj.Write(&buf, bigList[:300+i])
+			return fmt.Sprint(buf.String(), err)
+		}},
+		{"alt.Recompose(reachable types)", func(w *worker, i int) string {
+			var t T3
+			e := map[string]any{"v": int64(i)}
+			_, err := alt.Recompose(map[string]any{"m": map[string]any{"k": e}, "l": []any{e}, "p": e, "a": []any{e, e}, "mp": map[string]any{"k": e}, "ll": []any{[]any{e}}}, &t)
+			pv := -1
+			if t.P != nil {
+				pv = t.P.V
+			}
+			return fmt.Sprint(t.M["k"].V, len(t.L), pv, t.A[1].V, len(t.MP), len(t.LL), err)
+		}},
+		{"Recomposer.Recompose(reachable types)", func(w *worker, i int) string {
+			var t T3
+			e := map[string]any{"v": int64(i)}
+			_, err := rec.Recompose(map[string]any{"m": map[string]any{"k": e}, "l": []any{e}, "mp": map[string]any{"k": e}}, &t)
+			return fmt.Sprint(t.M["k"].V, len(t.L), len(t.MP), err)
+		}},
 		{"oj.JSON(opts)", func(w *worker, i int) string { return oj.JSON(parsed(i), sorted) }},
 		{"oj.JSON(indent)", func(w *worker, i int) string { return oj.JSON(parsed(i), indent) }},
 		{"oj.Marshal", func(w *worker, i int) string {
@@ -348,6 +393,14 @@ func run(c *mon.Ctx) {
 	var s2 S2
 	_, _ = rec.Recompose(map[string]any{"x": 1.0, "y": map[string]any{"a": int64(1)}}, &s2)
 	_, _ = alt.Recompose(map[string]any{"x": 1.0}, &s2)
+	// T3 is registered beforehand (with empty data, so nothing below it is recomposed yet)
+	var t3 T3
+	_, _ = alt.Recompose(map[string]any{}, &t3)
+	_, _ = rec.Recompose(map[string]any{}, &t3)
+	bigList = make([]any, 400)
+	for k := range bigList {
+		bigList[k] = int64(1000000 + k)
+	}
 	structs = nil
 	for k := 0; k < 400; k++ {
 		structs = append(structs, reflect.StructOf([]reflect.StructField{
@@ -359,14 +412,32 @@ func run(c *mon.Ctx) {
 	all := ops()
 	// sequential baseline (struct(new type) uses types that are NOT touched here: its baseline is computed per type lazily after the run)
 	base := make([][]string, len(all))
-	for oi, o := range all {
+	for oi := range all {
 		base[oi] = make([]string, nInputs)
-		if o.name == "struct(new type)" {
-			continue
+	}
+	if !race || true {
+		for oi, o := range all {
+			if o.name == "struct(new type)" || strings.Contains(o.name, "reachable types") {
+				continue // these are first used during the concurrent phase; compared afterwards
+			}
+			w0 := &worker{g: 0, c: c}
+			for i := 0; i < nInputs; i++ {
+				base[oi][i] = o.f(w0, i)
+			}
 		}
-		w0 := &worker{g: 0, c: c}
-		for i := 0; i < nInputs; i++ {
-			base[oi][i] = o.f(w0, i)
+		// a second sequential pass in the opposite order: "what it returns when run alone" must not
+		// depend on which call ran before
+		for oi := len(all) - 1; oi >= 0; oi-- {
+			o := all[oi]
+			if o.name == "struct(new type)" || strings.Contains(o.name, "reachable types") {
+				continue
+			}
+			w0 := &worker{g: 0, c: c}
+			for i := nInputs - 1; i >= 0; i-- {
+				if r := o.f(w0, i); r != base[oi][i] {
+					c.Violation(o.name, "sequential-result-depends-on-history", "", map[string]any{"input": i}, clip(base[oi][i]), clip(r))
+				}
+			}
 		}
 	}
 	ojP, ojW, ojM := oj.VerifPools()
@@ -405,7 +476,7 @@ func run(c *mon.Ctx) {
 					continue
 				}
 				c.Eval(1)
-				if o.name == "struct(new type)" {
+				if o.name == "struct(new type)" || strings.Contains(o.name, "reachable types") {
 					lateMu.Lock()
 					late = append(late, lateCheck{w.g, oi, i, res})
 					lateMu.Unlock()
@@ -434,7 +505,7 @@ func run(c *mon.Ctx) {
 	for _, l := range late {
 		w0 := &worker{g: l.g, c: c}
 		if want := all[l.oi].f(w0, l.i); want != l.res {
-			c.Violation("struct(new type)", "differs-from-sequential", "", map[string]any{"input": l.i, "goroutine": l.g}, clip(want), clip(l.res))
+			c.Violation(all[l.oi].name, "differs-from-sequential", "", map[string]any{"input": l.i, "goroutine": l.g}, clip(want), clip(l.res))
 		}
 	}
 	c.DistinctEnum(len(all) * nInputs)
